@@ -38,6 +38,14 @@ type c06HS struct {
 	// Runes: 0 ASCII; 2 or 3: the name is built from 2- or 3-byte UTF-8
 	// characters, so its rune count is well below its byte length
 	Runes int
+	// None: bit 0 integrity None, bit 1 confidentiality None, bit 2 authentication None.
+	// The handshake may then be refused, but what is proposed must still be what was asked.
+	None int `json:",omitempty"`
+}
+
+// c06Reneg: several handshakes on one connection, each with its own preference list
+type c06Reneg struct {
+	Seed int64
 }
 
 func init() {
@@ -60,6 +68,7 @@ func init() {
 				}
 			}
 			cs = append(cs, ev.MkCase("batch", c06Batch{Kind: "handshakes", Seed: seed}))
+			cs = append(cs, ev.MkCase("batch", c06Batch{Kind: "reneg", Seed: seed}))
 			n := 1
 			if tier == "thorough" {
 				n = 80
@@ -288,6 +297,12 @@ func (c *c06Conn) verify(run *ev.Run, g genCmd, cs ev.Case, desc string, e refbm
 }
 
 func c06Exec(run *ev.Run, cs ev.Case) {
+	if cs.Kind == "reneg" {
+		var h c06Reneg
+		cs.Decode(&h)
+		c06Renegotiate(run, h)
+		return
+	}
 	if cs.Kind == "hs" {
 		var h c06HS
 		cs.Decode(&h)
@@ -296,7 +311,18 @@ func c06Exec(run *ev.Run, cs ev.Case) {
 	}
 	var b c06Batch
 	cs.Decode(&b)
+	if b.Kind == "reneg" {
+		for i := 0; i < 40; i++ {
+			c06Renegotiate(run, c06Reneg{Seed: b.Seed*977 + int64(i)})
+		}
+		return
+	}
 	if b.Kind == "handshakes" {
+		for none := 1; none < 8; none++ {
+			for s9 := 0; s9 < 9; s9++ {
+				c06Handshake(run, c06HS{Priv: 2 + none%3, Lookup: s9%2 == 0, ULen: 3 + s9, Suite: s9, Seed: b.Seed, None: none})
+			}
+		}
 		for priv := 0; priv < 16; priv++ {
 			for _, lk := range []bool{false, true} {
 				for ul := 0; ul <= 40; ul++ {
@@ -644,6 +670,15 @@ func c06Handshake(run *ev.Run, h c06HS) {
 	}
 	user := full
 	su := stdSuites()[h.Suite%9]
+	if h.None&1 != 0 {
+		su.Integ = 0
+	}
+	if h.None&2 != 0 {
+		su.Conf = 0
+	}
+	if h.None&4 != 0 {
+		su.Auth = 0
+	}
 	cfg.Suites = []refbmc.Suite{su}
 	e := NewEnv(cfg, memtr.Window)
 	ctx, cancel := e.LimitCtx(12)
@@ -662,7 +697,7 @@ func c06Handshake(run *ev.Run, h c06HS) {
 		run.Violation("C06:handshake:panic:"+panicSite(st), fmt.Sprintf("%s: %v\n%s", desc, pv, trimStack(st)), cs, nil)
 		return
 	}
-	run.Nontrivial(fmt.Sprintf("hs|%d|%v|%d|%d", h.Priv, h.Lookup, h.ULen, h.Runes))
+	run.Nontrivial(fmt.Sprintf("hs|%d|%v|%d|%d|%d", h.Priv, h.Lookup, h.ULen, h.Runes, h.None))
 	var sawRAKP1 bool
 	for _, evn := range e.BMC.Events() {
 		run.Event("datagrams-parsed", 1)
@@ -704,7 +739,7 @@ func c06Handshake(run *ev.Run, h c06HS) {
 				run.Violation("C06:rakp3:malformed", fmt.Sprintf("%s: %v %s; datagram %x", desc, perr, evn.Problem, evn.Raw), cs, nil)
 				return
 			}
-			wantLen := map[byte]int{1: 20, 2: 16, 3: 32}[su.Auth]
+			wantLen := map[byte]int{0: 0, 1: 20, 2: 16, 3: 32}[su.Auth]
 			if f["status"] != 0 || f["bmc_sid"] != uint64(cfg.SID) || len(ac) != wantLen {
 				run.Violation("C06:rakp3:fields", fmt.Sprintf("%s: status %d SID %#x authcode %d bytes (want %d); datagram %x", desc, f["status"], f["bmc_sid"], len(ac), wantLen, evn.Raw), cs, nil)
 				return
@@ -717,6 +752,12 @@ func c06Handshake(run *ev.Run, h c06HS) {
 		}
 		return
 	}
+	if err != nil && h.None != 0 {
+		// the library may refuse to run without integrity/confidentiality/authentication;
+		// whatever it did put on the wire was checked above
+		run.Event("none-suite-handshakes-refused", 1)
+		return
+	}
 	if err != nil {
 		run.Violation("C06:handshake-failed", fmt.Sprintf("%s: %v; %v", desc, err, problems(e.BMC)), cs, nil)
 		return
@@ -725,4 +766,89 @@ func c06Handshake(run *ev.Run, h c06HS) {
 		run.Sample("handshake", map[string]any{"privilege": h.Priv, "lookup": h.Lookup, "username_len": h.ULen, "suite": su.String()})
 	}
 	_ = context.Background
+}
+
+// c06Renegotiate opens several sessions over one connection, each time with another
+// preference list; every Open Session Request must propose the suite that follows from
+// the list given with that call and from what the BMC advertises at that moment.
+func c06Renegotiate(run *ev.Run, h c06Reneg) {
+	run.Eval(1)
+	cs := ev.MkCase("reneg", h)
+	r := rng(h.Seed, "c06reneg")
+	cfg := defaultCfg(r)
+	uni := []refbmc.Suite{{Auth: 1, Integ: 1, Conf: 1}, {Auth: 3, Integ: 4, Conf: 1}, {Auth: 2, Integ: 2, Conf: 1}, {Auth: 1, Integ: 2, Conf: 1}, {Auth: 3, Integ: 1, Conf: 1}}
+	ids := []byte{3, 17, 8, 0x81, 0x82}
+	cfg.Suites = uni
+	e := NewEnv(cfg, memtr.Window)
+	var recs []refbmc.SuiteRecord
+	adv := map[refbmc.Suite]bool{}
+	for i, su := range uni {
+		if r.Intn(3) != 0 {
+			recs = append(recs, refbmc.SuiteRecord{ID: ids[i], Auth: su.Auth, Integs: []byte{su.Integ}, Confs: []byte{su.Conf}})
+			adv[su] = true
+		}
+	}
+	css := &refbmc.CipherSuiteServer{Data: refbmc.EncodeSuiteRecords(recs), Channel: 1}
+	e.BMC.Handler = css.Handle
+	for round := 0; round < 4; round++ {
+		n := 1 + r.Intn(3)
+		perm := r.Perm(len(uni))[:n]
+		var prefs []ipmi.CipherSuite
+		var want *refbmc.Suite
+		for _, k := range perm {
+			prefs = append(prefs, libSuite(uni[k]))
+			if want == nil && (adv[uni[k]] || n == 1) {
+				w := uni[k]
+				want = &w
+			}
+		}
+		from := e.BMC.Len()
+		ctx, cancel := e.LimitCtx(40)
+		var err error
+		pv, st := safe(func() {
+			_, err = e.ST.NewV2Session(ctx, &bmc.V2SessionOpts{SessionOpts: bmc.SessionOpts{Username: cfg.Username, Password: cfg.Password, MaxPrivilegeLevel: ipmi.PrivilegeLevelOperator}, CipherSuites: prefs})
+		})
+		cancel()
+		desc := fmt.Sprintf("handshake %d on one connection, preferences %v, advertised %v", round+1, prefs, recs)
+		if pv != nil {
+			run.Violation("C06:reneg:panic:"+panicSite(st), fmt.Sprintf("%s: %v\n%s", desc, pv, trimStack(st)), cs, nil)
+			return
+		}
+		var opens []refbmc.Event
+		for _, evn := range e.BMC.Since(from) {
+			if evn.Kind == "open" {
+				opens = append(opens, evn)
+			}
+		}
+		if want == nil {
+			if len(opens) != 0 || err == nil {
+				run.Violation("C06:reneg:proposal-without-match", fmt.Sprintf("%s: none of the preferences is advertised, yet %d Open Session Requests were sent (err %v)", desc, len(opens), err), cs, nil)
+				return
+			}
+			run.Nontrivial(fmt.Sprintf("reneg|none|%d", round))
+			continue
+		}
+		if len(opens) == 0 {
+			run.Violation("C06:reneg:no-proposal", fmt.Sprintf("%s: no Open Session Request reached the BMC (err %v)", desc, err), cs, nil)
+			return
+		}
+		for _, evn := range opens {
+			f, perr := refcodec.ParseOpenSessionReq(evn.Payload)
+			if perr != nil || evn.Problem != "" {
+				run.Violation("C06:open:malformed", fmt.Sprintf("%s: %v %s; datagram %x", desc, perr, evn.Problem, evn.Raw), cs, nil)
+				return
+			}
+			w := refcodec.Fields{"tag": f["tag"], "privilege": uint64(3), "console_sid": f["console_sid"], "auth": uint64(want.Auth), "integ": uint64(want.Integ), "conf": uint64(want.Conf)}
+			if d := f.Diff(w); len(d) > 0 {
+				run.Violation("C06:reneg:fields", fmt.Sprintf("%s: Open Session Request differs from what this call asked for: %v; datagram %x", desc, d, evn.Raw), cs, nil)
+				return
+			}
+		}
+		if err != nil {
+			run.Violation("C06:handshake-failed", fmt.Sprintf("%s: %v; %v", desc, err, problems(e.BMC)), cs, nil)
+			return
+		}
+		run.Event("renegotiations-checked", 1)
+		run.Nontrivial(fmt.Sprintf("reneg|%d|%d|%v", round, n, *want))
+	}
 }
